@@ -4,7 +4,8 @@ Theorems: coq/Properties/C06.v.  Ties (correspondence by execution):
   ranges  : Lattice.parse_ranges / main.parse_lattice on option strings
   bounds  : LatticeBounds.size/dims/indices/__getitem__, LatticeSpec + items,
             LatticeSpec.__getitem__ (tuple / int)
-  fillid  : ParseMCNPCell.to_fillid
+  fillid  : ParseMCNPCell.to_fillid, ParseMCNPCell.parse_fill_kw (tokens ->
+            ranges, universes, parameter tokens, rest of the keyword list)
   numeric : latticeReciprocal, latticeVector, squareLatticeReciprocalVecs,
             squareLatticeBaseVectors, compose_transform at binary64
   develop : CellConversion.develop_lattice observed (wrapper installed by the
@@ -39,7 +40,11 @@ THEOREMS = ['C06_indices_first_fastest', 'C06_items_array',
             'C06_dimension_checks_spec', 'C06_degenerate_ranges_developed',
             'C06_square_sides_irrelevant', 'C06_develop_lattice_square',
             'C06_extract_surfaces', 'C06_parse_ranges_spelled',
-            'C06_parse_lattice_option', 'C06_getitem_tuple_last_fastest']
+            'C06_parse_lattice_option', 'C06_getitem_tuple_last_fastest',
+            'C06_parse_fill_kw_array', 'C06_parse_fill_kw_short_and_shapes',
+            'C06_array_entry_transformation_refuted',
+            'C06_lattice_end_to_end', 'C06_lattice_end_to_end_3d',
+            'C06_lattice_end_to_end_1d_2d']
 TRUSTED = [
     'hand-written model coq/C06/Model.v (modelled, tied by execution only)',
     'cells, surfaces other than planes and the effect of a transformation on a '
@@ -48,6 +53,12 @@ TRUSTED = [
     'universe and the 12 numbers of filltr; how a 12-number transformation '
     'moves a surface (p -> O + B^T p, MIP transform_frame) is C04\'s subject '
     'and is taken as the definition of apply_tr here',
+    'C06_lattice_end_to_end: what cell_transform and pot_fill do with the '
+    'cells develop_lattice generates (region = image under apply_tr; volume = '
+    'container region /\\ image of each leaf cell of the fill universe under '
+    'the fill transformation, with the leaf\'s material) is restated from '
+    'C05/C04 as the definition lattice_volumes, not proved here; covered by '
+    'the point sweep',
     'MIP extract_surfaces_list (order of the surfaces of the cell card) is '
     'not modelled: the model takes its output; covered by the sweep only',
     'binary64 rounding, numpy matmul evaluation order and x**2 vs x*x: '
@@ -70,8 +81,10 @@ ASSUMPTIONS = [
     'ranges as base vectors, or as many non-trivial ranges as base vectors: '
     'C06_dimension_checks_spec), filltr empty or 12 numbers, at most '
     'one TRCL of 12 numbers',
-    'a lattice cell with both TRCL and a fill transformation is tied but not '
-    'swept (MCNP semantics not fixed by the reference)',
+    'a lattice cell with both TRCL and a fill transformation is swept against '
+    'the rule "TRCL moves the cell, the fill transformation alone places the '
+    'filler" (the rule of mcnpref.locate for ordinary filled cells and of the '
+    'upstream decks trcl_filltr*.imcnp validated against MCNP)',
 ]
 HEADER = ('From Coq Require Import List ZArith Bool String Ascii PrimFloat.\n'
           'From T4V Require Import Base.Str Base.Scalar C06.Model C06.Exec.\n'
@@ -80,7 +93,8 @@ HEADER = ('From Coq Require Import List ZArith Bool String Ascii PrimFloat.\n'
 ERR = {'LatticeError': 'ELattice', 'ZeroDivisionError': 'EZeroDiv',
        'ValueError': 'EValue', 'IndexError': 'EIndex',
        'AssertionError': 'EAssert',
-       'MissingLatticeOptError': 'EMissingLatticeOpt'}
+       'MissingLatticeOptError': 'EMissingLatticeOpt',
+       'ParseMCNPCellError': 'EParseCell'}
 
 
 # ---- rendering of values as Coq terms --------------------------------------
@@ -150,6 +164,42 @@ m3 1001 1
 m11 1001 1
 m12 1001 1
 '''
+
+
+WITNESS_ENTRY_TR = '''1-D lattice, the last array entry carries its own transformation
+1 0 -10 fill=1 imp:n=1
+2 0 10 imp:n=0
+3 3 -1.0 -21 22 u=1 lat=1 fill=-1:1 0:0 0:0 5 5 5(0 1 0) imp:n=1
+11 11 -1.0 -41 u=5 imp:n=1
+12 12 -1.0 41 u=5 imp:n=1
+
+10 so 8
+21 px 1
+22 px -1
+41 so 0.4
+
+m3 1001 1
+m11 1001 1
+m12 1001 1
+'''
+
+
+def witness_entry_tr():
+    '''MCNP: the (0 1 0) in parentheses belongs to the last entry (element
+    +1); elements -1 and 0 keep their filler sphere at their centre.'''
+    conv = impl.convert(WITNESS_ENTRY_TR, [])
+    if not conv.ok or conv.text is None:
+        return None          # rejected: a different behaviour, not this class
+    t4 = impl.T4File(conv.text)
+    centre0 = owners_at(t4, [0.0, 0.0, 0.0])
+    moved0 = owners_at(t4, [0.0, 1.0, 0.0])
+    last = owners_at(t4, [2.0, 1.0, 0.0])
+    if centre0 == ['m11_-1.0'] and moved0 == ['m12_-1.0']:
+        return None
+    return ("'fill=-1:1 0:0 0:0 5 5 5(0 1 0)': the transformation of the last "
+            'array entry is applied to every element: centre (0,0,0) of '
+            f'element 0 lies in {centre0}, its filler sphere is found at '
+            f'(0,1,0): {moved0} (element +1 at (2,1,0): {last})')
 
 
 def owners_at(t4, point):
@@ -237,6 +287,13 @@ def spy_develop(records):
             rec['trcl'] = [[float(x) for x in t] for t in cell.trcl]
         except Exception as exc:       # pylint: disable=broad-except
             rec['snapshot_error'] = f'{type(exc).__name__}: {exc}'
+        # the guard "if cell.lattice is None: return": a cell that is not a
+        # lattice is left alone (ConstructVolumeT4 never asks, so ask here)
+        plain = [k for k, c in self.dic_cell_mcnp.items() if c.lattice is None]
+        if plain:
+            snapshot = dict(self.dic_cell_mcnp)
+            orig(self, plain[0])
+            rec['guard_ok'] = snapshot == self.dic_cell_mcnp
         before = set(self.dic_cell_mcnp)
         try:
             orig(self, key)
@@ -328,6 +385,9 @@ def develop_case(rec):
                 clist(cfloat(x) for x in el['filltr'])))
         if not rec.get('deleted'):
             problems.append('the lattice cell was not removed')
+        if rec.get('guard_ok') is False:
+            problems.append('develop_lattice changed something for a cell '
+                            'that is not a lattice')
         expected = f'(Ok {clist(outs)})'
     case = cpair(clist(cz(i) for i in rec['ids']), dic, cell, expected)
     return case, problems
@@ -360,6 +420,96 @@ def gen_range_string(rng, valid=True):
     if kind == 'empty':
         return rng.choice(['', ':', '::', '1:', ':1'])
     return gen_int_spelling(rng, False) + ':' + gen_int_spelling(rng, False)
+
+
+PARAM_TOKENS = ['0', '1', '-2', '0.5', '90', '1.5', '-0.25', '3', '12', '7',
+                '.5', '2.', '1e1', '1.5d1', '2.5-1', '+4', '-1.e-1', '3d0']
+BAD_PARAM_TOKENS = ['2r', '-', '1.5x', '.', '+e1', '1e', '1d+', '3j']
+TAILS = [[], [], ['imp:n', '1'], ['u', '3'], ['lat', '1', 'imp:n', '1'],
+         ['trcl', '2'], ['vol', '1.0']]
+
+
+def gen_fill_tokens(rng):
+    '''(first argument, rest of the keyword list in reading order, shape)'''
+    tail = list(rng.choice(TAILS))
+    if rng.random() < 0.2:
+        n_par = rng.choice([0, 1, 3, 12, 2, 9])
+        pars = [rng.choice(PARAM_TOKENS) for _ in range(n_par)]
+        if n_par == 1:
+            pars = [str(rng.randint(1, 99))]
+        return str(rng.choice([1, 2, 17, 0])), pars + tail, 'plain'
+    bs = [(lo, lo + n - 1) for lo, n in
+          ((rng.randint(-3, 2), rng.choice([1, 1, 2, 3])) for _ in
+           range(rng.choice([1, 2, 3, 3, 3])))]
+    ranges = [gen_int_spelling_of(rng, lo) + ':' + gen_int_spelling_of(rng, hi)
+              for lo, hi in bs]
+    size = 1
+    for lo, hi in bs:
+        size *= hi - lo + 1
+    mode = rng.choice(['exact', 'exact', 'exact', 'short', 'repeat',
+                       'repeat_over', 'bad'])
+    univs = [rng.choice([0, 1, 2, 3, 5, 17]) for _ in range(size)]
+    toks = [gen_int_spelling_of(rng, u) for u in univs]
+    shape = 'array:' + mode
+    if mode == 'exact':
+        k = rng.choice([0, 0, 0, 1, 2, 3, 3, 4, 6, 9, 12, 13])
+        pars = [rng.choice(PARAM_TOKENS) for _ in range(k)]
+        if k == 1:
+            pars = [str(rng.randint(1, 99))]
+        if k and rng.random() < 0.08:
+            pars[rng.randrange(k)] = rng.choice(BAD_PARAM_TOKENS)
+            shape = 'array:badparam'
+        toks = toks + pars
+        shape += f':surplus{k}'
+    elif mode == 'short':
+        toks = toks[:rng.randint(0, size - 1)]
+        if not tail and rng.random() < 0.7:
+            tail = ['imp:n', '1']
+    elif mode in ('repeat', 'repeat_over'):
+        # u nR shorthand for a run of equal universes
+        n = rng.randint(1, max(1, size - 1))
+        head = [rng.choice([1, 2, 5]) for _ in range(size - n)] or [2]
+        n = size - len(head)
+        rep = [f'{n}r'] if n != 1 or rng.random() < 0.5 else ['r']
+        if n == 0:
+            rep = []
+        if mode == 'repeat_over':
+            rep = [f'{n + rng.randint(1, 3)}r']
+        toks = [str(u) for u in head] + rep
+        k = rng.choice([0, 0, 3])
+        toks += [rng.choice(PARAM_TOKENS) for _ in range(k)]
+    else:
+        toks = rng.choice([['r'] + toks, ['xr'] + toks, toks[:1] + ['qr'],
+                           ['1:2:3'] + toks, toks[:0]])
+        if rng.random() < 0.3:
+            ranges[0] = rng.choice(['1:', '0:1:2', 'a:1'])
+    return ranges[0], ranges[1:] + toks + tail, shape
+
+
+def gen_int_spelling_of(rng, value):
+    sign = '-' if value < 0 else rng.choice(['', '', '', '+'])
+    return sign + rng.choice(['', '', '0']) + str(abs(value))
+
+
+def fill_tokens_truth(first, stack):
+    '''Independent reading of a well-formed array (mode exact): ranges,
+    then size integers, then every token that looks like a number.'''
+    ranges = [first]
+    k = 0
+    while k < len(stack) and ':' in stack[k]:
+        ranges.append(stack[k])
+        k += 1
+    bs = [tuple(int(x) for x in r.split(':')) for r in ranges]
+    size = 1
+    for lo, hi in bs:
+        size *= hi - lo + 1
+    univs = [int(t) for t in stack[k:k + size]]
+    k += size
+    n_par = 0
+    while k < len(stack) and stack[k][0] in '0123456789.+-':
+        n_par += 1
+        k += 1
+    return bs, univs, n_par
 
 
 def gen_bounds(rng, allow_weird=True):
@@ -510,9 +660,41 @@ def run(res, tier, seed, proofs_ok):
 
     import time
     t0 = time.time()
-    direct_ties(res, rng, quick)
+    why = witness_entry_tr()
+    if why:
+        res.violation('impl-violation', why,
+                      {'input': {'deck': WITNESS_ENTRY_TR, 'args': []}},
+                      cls='array_entry_transformation', found_input=True)
+
+    import c06_cov
+    global COV
+    COV = c06_cov.LineCov(c06_cov.anchored_functions())
+    with COV:
+        direct_ties(res, rng, quick)
     t1 = time.time()
     deck_stream(res, rng, quick)
+    total, missing = COV.missing(c06_cov.UNREACHABLE)
+    res.obligation('coverage: the tied calls and the traced part of the deck '
+                   'stream execute every reachable line of the anchored '
+                   f'functions ({total} lines of {len(COV.codes)} code '
+                   'objects)', not missing, f'never executed: {missing[:6]}')
+    res.extra['anchored_lines'] = total
+    if missing:
+        res.violation('harness-error',
+                      'generated inputs no longer reach these lines of the '
+                      'anchored code (strengthen the generators): '
+                      f'{missing[:8]}',
+                      {'theorem_or_correspondence': 'coverage',
+                       'input': {'lines': [list(m) for m in missing[:20]]}},
+                      found_input=False)
+    res.extra['tier_depth'] = (
+        'quick: 1x direct-call streams (150-300 cases each), bounds '
+        'exhaustive for 1-2 ranges (156), 240 random + 32 corpus valid decks, '
+        '60 broken decks, 3 inner points per element'
+        if quick else
+        'thorough: 8x direct-call streams, bounds exhaustive for 1-3 ranges '
+        '(1884), 3000 random + 96 corpus valid decks, 600 broken decks, 5 '
+        'inner points per element')
     res.extra['phase_seconds'] = {'direct_ties': round(t1 - t0, 1),
                                   'deck_stream': round(time.time() - t1, 1)}
 
@@ -580,8 +762,14 @@ def direct_ties(res, rng, quick):
 
     # -- LatticeBounds: size, dims, indices, __getitem__ --
     cases, metas, gcases, gmetas = [], [], [], []
-    for k in range(200 * mult):
-        bs = gen_bounds(rng)
+    # exhaustive small domain first: every list of 1-2 (quick) / 1-3 (thorough)
+    # ranges with lo in -2..1 and 1-3 points, then the random stream
+    small = [(lo, lo + n - 1) for lo in (-2, -1, 0, 1) for n in (1, 2, 3)]
+    exhaustive = [list(t) for r in ((1, 2) if quick else (1, 2, 3))
+                  for t in itertools.product(small, repeat=r)]
+    res.count('bounds:exhaustive small domain', len(exhaustive))
+    for k in range(len(exhaustive) + 200 * mult):
+        bs = exhaustive[k] if k < len(exhaustive) else gen_bounds(rng)
         obj = L.LatticeBounds(list(bs))
         idx = call(lambda o: [list(t) for t in o.indices()], obj)
         cases.append(cpair(
@@ -687,6 +875,75 @@ def direct_ties(res, rng, quick):
     tie(res, 'c06_specget', 'LatticeSpec.__getitem__',
         'bounds * list Z * (list Z + Z) * res Z', 'check_spec_getitem', cases,
         metas, lambda m: str(m)[:300])
+
+    # -- parse_fill_kw: tokens after FILL -> (bounds, universes, parameters) --
+    from t4_geom_convert.Kernel.FileHandlers.Parser import ParseMCNPCell as pm
+    parser = ParseMCNPCell.__new__(ParseMCNPCell)
+    parser.transforms = {k: [0.0, 0.0, 0.0, 1.0, 0.0, 0.0, 0.0, 1.0, 0.0,
+                             0.0, 0.0, 1.0] for k in range(100)}
+    seen_consumed = []
+    orig_expand, orig_norm = pm.expand_data_card, pm.normalize_transform
+
+    def spy_expand(tokens, **kwargs):
+        out = orig_expand(tokens, **kwargs)
+        seen_consumed.append(out[1])
+        return out
+    cases, metas = [], []
+    pm.expand_data_card = spy_expand
+    pm.normalize_transform = list    # numeric normalisation: C04's subject
+    try:
+        for k in range(220 * mult):
+            first, stack, shape = gen_fill_tokens(rng)
+            kw_list = list(reversed([first] + stack))
+            del seen_consumed[:]
+            out = call(lambda e, kw: parser.parse_fill_kw(e, kw),
+                       rng.choice(['fill', '*fill']), kw_list)
+            if out[0] == 'ok':
+                f_bounds, f_univs, _ = out[1]
+                rest = list(reversed(kw_list))
+                if f_bounds is None:
+                    n_par = len(stack) - len(rest)
+                    cb, cu = 'None', f'(FInt {cz(f_univs)})'
+                else:
+                    n_more = len(f_bounds.bounds) - 1
+                    consumed = seen_consumed[-1]
+                    n_par = 0 if consumed == 0 else \
+                        len(stack) - n_more - consumed - len(rest)
+                    cb = f'(Some {cbounds([tuple(b) for b in f_bounds.bounds])})'
+                    cu = f'(FArr {clist(cz(u) for u in f_univs)})'
+                expected = (f'(Ok ({cb}, {cu}, {common.cnat(n_par)}, '
+                            f'{clist(cstr(t) for t in rest)}))')
+                summary = ('ok', f_bounds and [tuple(b) for b in f_bounds.bounds],
+                           f_univs, n_par, rest)
+            else:
+                expected = cres(out, None)
+                summary = out
+            cases.append(cpair(cstr(first), clist(cstr(t) for t in stack),
+                               expected))
+            metas.append({'first': first, 'stack': stack, 'shape': shape,
+                          'impl': summary})
+            res.seen(('fill_kw', first, stack), nontrivial=True)
+            res.count('parse_fill_kw:' + shape + ':'
+                      + (out[0] if out[0] == 'ok' else out[1]))
+            # oracle (well-formed arrays): exactly `size` universes in order,
+            # every following numeric token swallowed as a parameter
+            if shape.startswith('array:exact'):
+                want_u = summary[2] if out[0] == 'ok' else None
+                truth = fill_tokens_truth(first, stack)
+                if out[0] != 'ok' or summary[1] != truth[0] \
+                        or want_u != truth[1] or summary[3] != truth[2]:
+                    res.violation(
+                        'impl-violation',
+                        f'parse_fill_kw({first!r}, {stack}) = {summary}, '
+                        f'expected bounds/universes/params {truth}',
+                        {'input': {'first': first, 'stack': stack}},
+                        found_input=True)
+    finally:
+        pm.expand_data_card, pm.normalize_transform = orig_expand, orig_norm
+    res.sample({'parse_fill_kw': metas[0]})
+    tie(res, 'c06_fillkw', 'parse_fill_kw',
+        'string * list string * res (option bounds * funivs * nat * list string)',
+        'check_fill_kw', cases, metas, lambda m: str(m)[:300])
 
     # -- to_fillid --
     cases, metas = [], []
@@ -902,17 +1159,27 @@ def direct_ties(res, rng, quick):
 
 
 def classify(deck, meta, failure):
-    '''Narrow class of a sweep failure, or None.  C06 has no open class:
+    '''Narrow class of a sweep failure, or None.  The generated decks never
+    carry per-entry transformations, so the open class
+    array_entry_transformation only matches its witness deck;
     lattice_fill_rotation was repaired in /repo a82b50a,
     degenerate_range_rejected in 9b5a8f0.'''
     return None
 
 
-def run_deck(deck, args):
+COV = None      # line-coverage tracer (c06_cov.LineCov) of the current run
+
+
+def run_deck(deck, args, trace=False):
     '''(conv, records of develop_lattice calls)'''
     records = []
     with spy_develop(records):
-        conv = impl.convert(deckmod.render(deck), args, keep_stdout=False)
+        if trace and COV is not None:
+            with COV:
+                conv = impl.convert(deckmod.render(deck), args,
+                                    keep_stdout=False)
+        else:
+            conv = impl.convert(deckmod.render(deck), args, keep_stdout=False)
     return conv, records
 
 
@@ -935,18 +1202,16 @@ def deck_stream(res, rng, quick):
         gen_rng = rng
         if k < len(corpus):
             force, gen_rng = corpus[k]
-        if broken and rng.random() < 0.3:
-            force = {'both_tr': True, 'lat_trcl': True, 'homogeneous': True,
-                     'fill_tr': True}
         deck, meta = c06_gen.gen_deck(gen_rng, force)
         fault = None
-        if broken and not force:
+        if broken:
             fault = c06_gen.break_deck(rng, deck, meta)
-        elif broken:
-            fault = 'trcl_and_filltr'
         text = deckmod.render(deck)
         args = deckmod.lattice_args(deck)
-        conv, records = run_deck(deck, args)
+        # the corpus, 40 random decks and every broken deck run under the
+        # line-coverage tracer (tracing every conversion would double the time)
+        conv, records = run_deck(deck, args,
+                                 trace=k < len(corpus) + 40 or broken)
         payload = {'deck': text, 'args': args, 'abstract': deck, 'meta': meta,
                    'fault': fault}
         res.seen(text, nontrivial=meta['n_elements'] > 1 or broken)
@@ -959,6 +1224,8 @@ def deck_stream(res, rng, quick):
             res.count('lattice TRCL')
         if meta['cont_tr']:
             res.count('container transformed')
+        if meta['both_tr'] and not broken:
+            res.count('lattice with TRCL and a fill transformation (swept)')
         if meta['nested']:
             res.count('nested lattice as filler')
         if meta['degenerate_low_dim']:
@@ -1065,6 +1332,11 @@ CORPUS_SHAPES = [
      'fill_tr_mode': 'rot', 'lat_trcl': False},
     {'d': 3, 'kind': 'ortho', 'rpp': False, 'homogeneous': True,
      'fill_tr': True, 'fill_tr_mode': 'rot', 'lat_trcl': False},
+    # TRCL and a rotating fill transformation on the same lattice cell
+    {'d': 2, 'kind': 'rot', 'homogeneous': True, 'fill_tr': True,
+     'fill_tr_mode': 'rot', 'lat_trcl': True, 'both_tr': True},
+    {'d': 1, 'kind': 'ortho', 'homogeneous': True, 'fill_tr': True,
+     'fill_tr_mode': 'transl', 'lat_trcl': True, 'both_tr': True},
     # TRCL on the lattice cell, array fill
     {'d': 2, 'kind': 'skew', 'homogeneous': False, 'lat_trcl': True},
     {'d': 3, 'kind': 'rot', 'homogeneous': False, 'lat_trcl': True,
